@@ -436,7 +436,9 @@ def custom_build_no_out(p, rng):
 def cli_comma_define(p, rng):
     a = p.setdefault("args", {})
     var = rng.choice(["LIBS", "CFLAGS", "X", "DEFS"])
-    val = rng.choice(["-Wl,-Map=out.map", "a,b", "x,y=z", ",", "a, b"])
+    val = rng.choice(["-Wl,-Map=out.map", "a,b", "x,y=z", ",", "a, b", " lead", "trail ", " both sides ", "\tx"])
+    if rng.random() < 0.12:
+        var += " "            # `-D 'X =v'` names the variable "X " (blanks are part of what is written)
     a["define"] = list(a.get("define") or []) + [var + rng.choice(["=", "+="]) + val]
 
 
@@ -996,7 +998,32 @@ def same_source_two_spellings(p, rng):
     a["depends"] = list(a.get("depends") or []) + [m["name"], twin["name"]]
 
 
-SHAPES += [("p_same_source_two_spellings", same_source_two_spellings), ("p_uses_removal_marker", uses_removal_marker), ("p_suffix_ext_rules", suffix_ext_rules), ("p_srcdir_dot", srcdir_dot),
+def odd_app_names(p, rng):
+    """two copies of an app whose names differ only in `/` vs `_` (or `.` vs `-`, or a non-ASCII letter): names are compared and used
+    in paths as they are written"""
+    apps = [(a, d) for k, a, path, d in _modules(p, ("apps",)) if a.get("name")]
+    if not apps:
+        return
+    a, d = rng.choice(apps)
+    n = a["name"]
+    x, y = rng.choice([(n + "/v", n + "_v"), (n + "/v", n + "_v"), (n + ".x", n + "-x"), ("\u00e9" + n, "e" + n), (n + "/", n + "//")][:4])
+    for nn in (x, y):
+        b = copy.deepcopy(a)
+        b["name"] = nn
+        d["apps"].append(b)
+    if rng.random() < 0.5:
+        # ... compiled by a rule that is not shareable: the object directory carries the app's name
+        root = _root(p)
+        for c in root.get("contexts") or []:
+            for r in c.get("rules") or []:
+                if r.get("name") == "CC" and r.get("in") == "c" and c.get("name") == "default":
+                    r["shareable"] = False
+    args = p.setdefault("args", {})
+    if args.get("apps") is not None and rng.random() < 0.7:
+        args["apps"] = list(args["apps"]) + [x, y]
+
+
+SHAPES += [("p_odd_app_names", odd_app_names), ("p_same_source_two_spellings", same_source_two_spellings), ("p_uses_removal_marker", uses_removal_marker), ("p_suffix_ext_rules", suffix_ext_rules), ("p_srcdir_dot", srcdir_dot),
            ("p_module_sets_builtin_var", module_sets_builtin_var), ("p_context_prefixed_module", context_prefixed_module),
            ("p_alias_spellings", alias_spellings), ("p_root_context_disables", root_context_disables), ("p_escaped_early_var", escaped_early_var),
            ("p_dup_context_list", dup_context_list), ("p_empty_task_map", empty_task_map), ("p_download_not_build_dep", download_not_build_dep),
